@@ -351,6 +351,23 @@ def _pipeline(ts, f):
     return {"kind": "pipeline", "transformers": ts, "forecaster": f}
 
 
+# one representative of every forecaster kind (for the exhaustive "every kind" sub-checks)
+_N = {"kind": "naive", "strategy": "last", "sp": 1}
+_T = {"kind": "trend", "degree": 1, "with_intercept": True}
+FORECASTER_ENUM = [
+    _N, {"kind": "naive", "strategy": "mean", "sp": 1, "wl": 3}, {"kind": "naive", "strategy": "mean", "sp": 2, "wl": None},
+    {"kind": "naive", "strategy": "drift", "sp": 1, "wl": None}, {"kind": "naive", "strategy": "last", "sp": 3}, _T,
+    {"kind": "expsmooth", "trend": None}, {"kind": "expsmooth", "trend": "add"}, {"kind": "ets"}, {"kind": "theta", "sp": 1, "deseasonalize": False},
+] + [{"kind": "reduce", "strategy": s_, "wl": 3, "reg": "linear", "scitype": sc_}
+     for s_ in ("direct", "recursive", "multioutput", "dirrec") for sc_ in ("tabular", "ts")] + [
+    {"kind": "ensemble", "members": [_N, _T], "aggfunc": "mean"}, {"kind": "online_ensemble", "members": [_N, _T]},
+    {"kind": "pipeline", "transformers": [{"kind": "deseason", "sp": 2, "model": "additive"}, {"kind": "detrend", "degree": 1}], "forecaster": _N},
+    {"kind": "pipeline", "transformers": [{"kind": "log"}], "forecaster": _T},
+    {"kind": "multiplex", "members": [_N, _T], "selected": 1}, {"kind": "stack", "members": [_N, _T], "reg": "linear"},
+    {"kind": "gridsearch", "base": _N, "grid": {"strategy": ["last", "mean", "drift"]}, "cv_wl": 6, "cv_step": 2, "cv_fh": 1},
+]
+
+
 def plain_specs(cheap=False):
     if cheap:
         return st.one_of(naive_specs(), trend_specs(), reduce_specs(("recursive",)))
